@@ -2336,7 +2336,7 @@ where
                     frame_data
                         .iter()
                         .flat_map(|&byte| (0..8).map(move |bit| ((byte >> bit) & 1) * 255))
-                        .take(frame_pixels * number_of_frames as usize)
+                        .take(samples_all)
                         .collect()
                 } else {
                     data.to_vec()
@@ -2507,7 +2507,7 @@ where
                         .iter()
                         .flat_map(|&byte| (0..8).map(move |bit| ((byte >> bit) & 1) * 255))
                         .skip(leading_bits)
-                        .take(frame_pixels)
+                        .take(frame_samples)
                         .collect()
                 } else {
                     frame_data.to_vec()
